@@ -1,7 +1,7 @@
 SPECIFICATION Spec
 CONSTANTS
-  MaxNS = 5
-  MaxND = 3
+  MaxNS = 6
+  MaxND = 4
   MaxList = 2
   Ks = {2, 3}
   Variant = "fixed"
